@@ -17,6 +17,7 @@ import (
 type WorldComp struct {
 	Name string
 	Sort string
+	Theory string // theory module that declares the sort (component unavailable unless the module is in use)
 }
 
 type SpecSig struct {
@@ -131,6 +132,11 @@ func (w *Workspace) loadTheory() error {
 			}
 		}
 		w.theory[name] = tm
+		for _, m := range theorySortDeclRe.FindAllStringSubmatch(tm.Text, -1) {
+			if !strings.HasPrefix(m[1], "Opt_") {
+				theorySorts[m[1]] = true
+			}
+		}
 		sx, err := parseSexps(tm.Text)
 		if err != nil {
 			return fmt.Errorf("%s: %v", p, err)
@@ -181,7 +187,11 @@ func (w *Workspace) loadTheory() error {
 				return fmt.Errorf("world.decl:%d: expected <name> <sort>", i+1)
 			}
 			name := l[:j]
-			w.world[name] = &WorldComp{Name: name, Sort: strings.TrimSpace(l[j:])}
+			srt, th := strings.TrimSpace(l[j:]), ""
+			if k := strings.LastIndex(srt, " @"); k >= 0 { // "<sort> @theory": the sort is declared by that theory module
+				srt, th = strings.TrimSpace(srt[:k]), strings.TrimSpace(srt[k+2:])
+			}
+			w.world[name] = &WorldComp{Name: name, Sort: srt, Theory: th}
 			w.worldOrder = append(w.worldOrder, name)
 		}
 	}
@@ -203,6 +213,7 @@ func (g *Gen) useTheory(name string) {
 	g.ensureSortNames(tm.Text)
 }
 
+var theorySortDeclRe = regexp.MustCompile(`\(declare-datatypes \(\(([A-Za-z0-9_]+) 0\)\)`)
 var sortNameRe = regexp.MustCompile(`\bT_[A-Za-z0-9_]+`)
 var opaqueNameRe = regexp.MustCompile(`\bO_[A-Za-z0-9_]+`)
 var sliceNameRe = regexp.MustCompile(`\bSlice_(Str|Int|Bool)\b`)
